@@ -25,6 +25,7 @@ RDM_DESC = {
     'rflt': lambda r: 0.5 + int(r),
     'ralt': lambda r: 'u%d' % (int(r) % 2),   # duplicates whose members are NOT adjacent: u0,u1,u0,u1
     'rbig': lambda r: 100000 + int(r),       # six-digit ids: distinct values closer than 1e-5 relative
+    'rneg': lambda r: int(r) - 2,            # signed integer codes: -2,-1,0,1,...
 }
 PAT_DESC = {
     'cid': lambda c: int(c),
@@ -32,6 +33,9 @@ PAT_DESC = {
     'cat': lambda c: int(c) % 2,            # duplicates, interleaved: 0,1,0,1
     'pgrp': lambda c: 'g%d' % (int(c) // 2),  # duplicates as strings: g0,g0,g1,g1
     'big': lambda c: 100000 + int(c),        # six-digit ids: distinct values closer than 1e-5 relative
+    'neg': lambda c: int(c) - 2,             # signed integer codes (centred level / contrast codes): -2,-1,0,1,...
+    'lvl': lambda c: int(c) // 2 - 1,        # signed integer levels with duplicates: -1,-1,0,0,1,1
+    'flt': lambda c: 0.5 * int(c) - 1.0,     # signed float codes incl. 0.0: -1.0,-0.5,0.0,0.5,...
 }
 
 
